@@ -13,7 +13,7 @@ CHECKS = {
     "C01": ("spec/HoldemProps.tla C01_* evaluated by TLC on every recorded step of the real engine",
             "Chip identity, round pot, published pots and settlement sums as TLA+ state/step predicates; model-checked on the precise "
             "model Holdem.tla in a small scope and evaluated on every step of exhaustive small-scope exploration, TLC-generated scripts "
-            "and seeded random hands of the real engine (boundary stacks, antes, dead SB, pot-limit, both decks)."),
+            "and seeded random hands of the real engine (boundary stacks, antes, dead SB, pot-limit, both decks); PayProof proves with TLAPS that the one chip-moving operator of the model keeps the identity in every game state."),
     "C02": ("spec/PotProps.tla C02_* on every contribution/fold/strength vector fed to the real pot+settlement packages and on every closed hand",
             "Showdown payout as input/output predicates (folded wins nothing and gets uncalled chips back; a player collects an equal "
             "share, within one chip, of exactly the side pots he is among the best of; zero sum). MCPots checks the precise model "
